@@ -80,10 +80,12 @@ Definition defs_eqb (a b : defs) : bool :=
 Definition fuel_s : nat := 12.
 
 (* what deserialization_schema(T, additional_properties, aliaser, all_refs, schema=root) returns, as (schema, $defs) *)
-Definition model_schema (u : univ) (o : dopts) (all_refs : bool) (root : option constraints) (t : ty) : js * defs :=
-  let refs := refs_pred (refs_of u all_refs t) in
+Definition model_schema_u (u : univ) (o : dopts) (unnamed : list nat) (all_refs : bool) (root : option constraints) (t : ty) : js * defs :=
+  let refs := refs_pred (refs_of u (fun c => existsb (Nat.eqb c) unnamed) all_refs t) in
   (apply_con root (build u o refs fuel_s false t),
    defs_for u o refs fuel_s (seq 0 (List.length (u_classes u))) (seq 0 (List.length (u_enums u)))).
+
+Definition model_schema (u : univ) (o : dopts) := model_schema_u u o [].
 
 Definition schema_case_ok (u : univ) (o : dopts) (all_refs : bool) (root : option constraints) (t : ty)
            (impl : js) (impl_defs : defs) : bool :=
@@ -118,3 +120,9 @@ Definition schema_case (u : univ) (o : dopts) (all_refs : bool) (root : option c
   | Some (s, ds) => keys_ok_deep u (S (List.length (u_classes u))) t && schema_case_ok u o all_refs root t s ds
   | None => negb (keys_ok_deep u (S (List.length (u_classes u))) t)
   end.
+
+(* C17: with classes decorated by type_name(None) *)
+Definition schema_case_u (u : univ) (o : dopts) (unnamed : list nat) (all_refs : bool) (root : option constraints) (t : ty)
+           (impl : js * defs) : bool :=
+  let '(s, ds) := model_schema_u u o unnamed all_refs root t in
+  js_eqb s (fst impl) && defs_eqb ds (snd impl).
